@@ -71,10 +71,11 @@ Section Spec.
       unexpired certificate if one is listed there *)
   Lemma selected_ok m x : select_cert supf validf s m = Some x ->
     alookup (c_hash x) (cache s) = Some x /\ listed_under s (c_hash x) m = true /\
-    (negb (existsb goodb (idx s m)) || goodb (c_hash x)) = true.
+    (negb (existsb goodb (idx s m)) || goodb (c_hash x)) = true /\
+    (negb (existsb supf (idx s m)) || supf (c_hash x)) = true.
   Proof.
     intros Hs. destruct (select_some supf validf names_of (l_cap c) s m x HI Hs) as (Hc & Hm & Hin & Hg).
-    split; [exact Hc|]. split.
+    split; [exact Hc|]. split; [|split].
     - unfold listed_under. rewrite Hc. apply andb_true_iff. split; apply mem_str_In; [|exact Hm].
       apply matching_hash_in_idx. exact Hin.
     - destruct (existsb goodb (idx s m)) eqn:E; [|reflexivity]. cbn [negb orb].
@@ -83,17 +84,14 @@ Section Spec.
       unfold goodb in *. apply andb_true_iff in Hgood.
       destruct Hg as [G1 G2]; [exists x'; split; [exact Hx' | exact Hgood]|].
       rewrite G1, G2. reflexivity.
+    - destruct (existsb supf (idx s m)) eqn:E; [|reflexivity]. cbn [negb orb].
+      apply existsb_exists in E. destruct E as (h & Hh & Hsup).
+      destruct (idx_hash_matching m h Hh) as (x' & Hx' & <-).
+      unfold Model.select_cert in Hs. eapply default_select_sup; eauto.
   Qed.
 
   Lemma complete_of_cached x : alookup (c_hash x) (cache s) = Some x -> known_complete c (c_hash x) = true.
   Proof. intros H. unfold known_complete. fold s. rewrite H. eapply Hcomplete; eauto. Qed.
-
-  Lemma load_from_storage_key st nm x : load_from_storage st nm = Some x -> exists k, alookup k st = Some x.
-  Proof.
-    unfold load_from_storage. destruct (alookup nm st) as [y|] eqn:E.
-    - intros H; injection H as <-. eauto.
-    - eauto.
-  Qed.
 
   Lemma complete_of_loaded cap0 (x : stored) :
     load_ok lower is_space cap0 s (l_cfg c) (l_ip c) (l_envx c) x -> known_complete c (c_hash (sd_cert x)) = true.
@@ -169,8 +167,8 @@ Section Spec.
           destruct (from_cache_matched_first lower is_space supf validf s (l_cfg c) (l_sni c) (l_ip c) pre m post' En Hc Hpre Hm) as (x & Hf & Hs).
           exists x. split; [|exact Hs]. unfold rr, lookup_x in Err. rewrite from_cache_x_default, Hf in Err. congruence. }
       destruct Hr as (x & -> & Hs). cbn [obs_of].
-      destruct (selected_ok m x Hs) as (Hc & Hl & Hg).
-      unfold goodb in Hg. rewrite (complete_of_cached x Hc), Hl, Hg. reflexivity.
+      destruct (selected_ok m x Hs) as (Hc & Hl & Hg & Hsp).
+      unfold goodb in Hg. rewrite (complete_of_cached x Hc), Hl, Hg, Hsp. reflexivity.
     - (* nothing listed under a preferred name *)
       apply first_listed_none in Efl.
       destruct r as [|x]; cbn [obs_of]; [reflexivity|].
@@ -182,10 +180,10 @@ Section Spec.
           inversion Efl as [|? ? Hm _]; subst. apply (proj2 (select_none supf validf s _)) in Hm. congruence.
         * exfalso. fold n in Hn. rewrite Hn in Efl. cbn [is_nil] in Efl.
           inversion Efl as [|? ? Hm _]; subst. apply (proj2 (select_none supf validf s _)) in Hm. congruence.
-        * fold n in Hn. destruct (selected_ok _ x Hs) as (Hc & Hl & _).
+        * fold n in Hn. destruct (selected_ok _ x Hs) as (Hc & Hl & _ & _).
           rewrite (complete_of_cached x Hc), Hn, Hl. cbn [is_nil andb].
           apply is_nil_false in Hd. rewrite Hd. reflexivity.
-        * destruct (selected_ok _ x Hs) as (Hc & Hl & _).
+        * destruct (selected_ok _ x Hs) as (Hc & Hl & _ & _).
           rewrite (complete_of_cached x Hc), Hl. apply is_nil_false in Hfb. rewrite Hfb.
           cbn [negb andb]. rewrite orb_true_r. reflexivity.
       + rewrite (complete_of_loaded _ x0 Hlo), (loaded_ok_of_load x0 Hlo Hfr). cbn [andb].
